@@ -119,6 +119,7 @@ def who_may_unset(ctx: Ctx, rule: str) -> None:
 def sync_table(ctx: Ctx, rule: str) -> None:
     fn = ctx.repo.func(SYNC)
     loop = the_loop(ctx, SYNC, ast.For, lambda l: ast.unparse(l.iter) == "self.objects", "loop over self.objects")
+    ctx.require_locals(SYNC, ["should_clean", "do", "node_params", "object_params", "unset_policy", "object_state", "location", "suffixes"])
     interesting = names_interesting({"should_clean", "do", "update", "remove"},
                                     extra=lambda n: isinstance(n, ast.Raise))
     views = loop_iteration_views(ctx, SYNC, loop, interesting)
